@@ -29,7 +29,7 @@ Value(h, t) == [chains |-> [c \in 1..Len(t.chains) |-> [cid |-> t.chains[c].cid,
 \* typed/ordered bonds within a residue, across residues and across chains
 A0 == <<[name |-> "N", el |-> "N", serial |-> 10, idx |-> 0], [name |-> "CA", el |-> "C", serial |-> 12, idx |-> 1],
         [name |-> "CA", el |-> "C", serial |-> 20, idx |-> 2], [name |-> "O", el |-> "O", serial |-> 31, idx |-> 3],
-        [name |-> "M", el |-> "VS", serial |-> 32, idx |-> 4]>>
+        [name |-> "OM", el |-> "VS", serial |-> 32, idx |-> 4]>>
 T0 == [chains |-> << [cid |-> "X", res |-> << [name |-> "ALA", resSeq |-> 7, seg |-> "S1", atoms |-> <<1, 2>>], [name |-> "GLY", resSeq |-> 7, seg |-> "S1", atoms |-> <<3>>] >>],
                      [cid |-> "Y", res |-> << [name |-> "HOH", resSeq |-> 1, seg |-> "S2", atoms |-> <<4, 5>>] >>] >>,
        atoms |-> <<1, 2, 3, 4, 5>>,
